@@ -49,3 +49,21 @@ Definition range_upd {St : Type} (f : St -> nat -> pinfo -> pinfo * St) (ps : li
 
 Definition type_implements_error (p : pinfo) : bool := pi_err p.
 Definition type_implements_context (p : pinfo) : bool := pi_ctx p.
+
+(* ---- the merge loop of namedTypeToInterface (interface.go): candidates map[string]*Method and the
+   conflict set set.Set[string]
+   _, ok := m[k]                               mmap_has m k
+   m[k] = v                                    mmap_set m k v     (a new key goes to the end: the model
+                                                                   keeps first-seen order, Go's map none)
+   delete(m, k)                                mmap_del m k
+   s.Has(k) / s.Add(k)                         mset_has s k / mset_add s k                            *)
+Definition mmap_has {A : Type} (m : list (string * A)) (k : string) : bool :=
+  existsb (fun p : string * A => String.eqb (fst p) k) m.
+Definition mmap_del {A : Type} (m : list (string * A)) (k : string) : list (string * A) :=
+  filter (fun p : string * A => negb (String.eqb (fst p) k)) m.
+Definition mmap_set {A : Type} (m : list (string * A)) (k : string) (v : A) : list (string * A) :=
+  if mmap_has m k
+  then map (fun p : string * A => if String.eqb (fst p) k then (k, v) else p) m
+  else (m ++ [(k, v)])%list.
+Definition mset_has (s : list string) (k : string) : bool := mem k s.
+Definition mset_add (s : list string) (k : string) : list string := k :: s.
